@@ -10,7 +10,7 @@ T4 = ["MdWire"]
 PROOF_MODULES = ["GrpcProofs.Properties.C09"]
 THEOREMS = ["GrpcProofs.C09." + t for t in (
     "md_roundtrip_partial", "per_key_order", "transport_added_keys", "md_roundtrip_counterexample_host",
-    "md_roundtrip_counterexample_connection", "invalid_md_fails_before_send", "validate_pair_iff",
+    "md_roundtrip_counterexample_connection", "accept_encoding_surfaced_counterexample", "invalid_md_fails_before_send", "validate_pair_iff",
     "reserved_never_sent_client", "reserved_never_sent_server", "reserved_never_surfaced_server_partial",
     "reserved_never_surfaced_header_partial", "reserved_never_surfaced_trailer_partial",
     "content_type_surfaced_counterexample_server", "content_type_surfaced_counterexample_client",
@@ -28,7 +28,8 @@ LEVEL_TEXT = ("Machine-checked Lean proofs about a model of the metadata path: f
               "invalid outgoing metadata yields no fields at all; binary values of any bytes round-trip, padded or raw; validated metadata is always "
               "acceptable to the peer's HTTP/2 framer. The model is diffed against real RPCs over bufconn and against the codec/validation functions on every run.")
 LEVEL_NOTE = ("Readings: (1) 'exactly the client's metadata' is per key, modulo the keys the transport adds (:authority, user-agent allowed by the statement; "
-              "content-type = F17); a key with an empty value list is unobservable; (2) the last clause (invalid metadata fails with INTERNAL before anything is "
+              "content-type = F17; grpc-accept-encoding with the names of the compressors registered in the client process = F30, reported by the "
+              "harness and fed to the model as CallCfg.acceptEncoding); a key with an empty value list is unobservable; (2) the last clause (invalid metadata fails with INTERNAL before anything is "
               "sent) is read client-side (newClientStream); on the server ServerStream.SetHeader/SendHeader validate and return INTERNAL, ServerStream.SetTrailer "
               "only logs, grpc.SetHeader/SendHeader/SetTrailer(ctx) do not validate (F10): invalid server metadata is outside the statement's domain, the monitor "
               "does not judge those RPCs (observed and modelled: names the framer rejects make the client fail with INTERNAL and lose the handler's status; "
@@ -39,14 +40,14 @@ LEVEL_NOTE = ("Readings: (1) 'exactly the client's metadata' is per key, modulo 
 GAP = ("HPACK and HTTP/2 framing, header-list-size limits, per-RPC credentials / stats handlers / binary logging adding their own keys, "
        "grpc-accept-encoding and grpc-timeout added by the transport when compressors/deadlines are configured (harness uses none), retries")
 ASSUMPTIONS = ["the http2 framer/HPACK deliver header fields exactly as queued, or reject the frame per validWireHeaderFieldName / ValidHeaderFieldValue",
-               "no compressor registered, no deadline, no per-RPC credentials (transport adds only :method :scheme :path :authority content-type user-agent te)"]
+               "no send-compressor, no deadline, no per-RPC credentials (transport adds only :method :scheme :path :authority content-type user-agent te, plus grpc-accept-encoding with the process's registered compressors)"]
 RULE = ("s_mdwire: one real RPC per op (unary, stream trailers-only, stream with a message): client metadata as a raw MD literal given to "
         "NewOutgoingContext plus pairs appended with AppendToOutgoingContext; handler records FromIncomingContext and publishes header/trailer MD through "
         "ServerStream.SetHeader/SendHeader/SetTrailer or grpc.SetHeader/SendHeader/SetTrailer; client records status, Header(), Trailer(). Systematic part: "
         "every key of the pools (23 valid incl. -bin and grpc-* names, 15 reserved/pseudo, 14 invalid, 9 mixed-case) alone in each position, every listed "
         "value (printable, empty, control bytes, non-ASCII) in each position, binary values of length 0..7; random part: cases of 20 RPCs with 0-4 keys x 0-3 "
         "values per MD, invalid/reserved/special keys mixed in. RPCs that hit a listed known finding (host, connection) travel in single-op cases; F17 is "
-        "judged on three dedicated `probe` ops. mdcodec: isReservedHeader/isWhitelistedHeader on all 1- and 2-byte names and the pools, Validate on every "
+        "judged on three dedicated `probe` ops, F30 on two `probeae` ops. mdcodec: isReservedHeader/isWhitelistedHeader on all 1- and 2-byte names and the pools, Validate on every "
         "byte in key and value positions and random MDs, encode/decodeMetadataHeader on valid (raw and padded) and mutated base64, AppendToOutgoingContext "
         "lower-casing on all ASCII bytes. A case is non-trivial when at least one handler ran. s_rawpeer: the real server against a scripted raw HTTP/2 client and the real client against a scripted raw HTTP/2 server: request/response header fields grpc-go never writes itself (padded/raw/invalid base64, reserved names, duplicate and missing pseudo-headers, host with and without :authority, connection, content-type and :method variants, grpc-timeout good and malformed, names/values the framer rejects), every listed extra field alone in each position plus random combinations.")
 
@@ -240,6 +241,10 @@ def gen(rng, tier):
     yield Case("s_mdwire", ["probe u - - none - none - 0"], "probe-f17")
     yield Case("s_mdwire", ["probe b0 %s - none - none - 5" % show_md([(b"k", [b"v"])])], "probe-f17")
     yield Case("s_mdwire", ["probe b1 - - ss.send %s ss.set %s 0" % (show_md([(b"h", [b"1"])]), show_md([(b"t", [b"2"])]))], "probe-f17")
+    # F30 probes: the grpc-accept-encoding clause of the monitor is on for these (it fires only when a compressor is registered in
+    # the harness binary, e.g. by another property's component; the harness reports the advertised value in `ae=`)
+    yield Case("s_mdwire", ["probeae u - - none - none - 0"], "probe-f30")
+    yield Case("s_mdwire", ["probeae b1 %s %s none - none - 0" % (show_md([(b"k", [b"v"])]), show_added([(b"grpc-accept-encoding", b"mine")]))], "probe-f30")
     yield from gen_fn(rng, tier)
     yield from gen_peer(rng, tier)
 
